@@ -482,14 +482,15 @@ func c17Structure(c *Ctx, r *Report) {
 		}
 	}
 	// ---- R17.3 ----
-	var track *ssa.Call
+	// the tracking call is recognised by its effect (it inserts into a map-typed field of Server,
+	// itself or through in-package helpers, given the constant flags it is called with), not by name
+	srvT := deref(serve.Signature.Recv().Type())
+	var track ssa.Instruction
 	var goI *ssa.Go
 	for _, b := range serve.Blocks {
 		for _, in := range b.Instrs {
-			if cm, ok := isCallTo(in, "trackConn"); ok && len(cm.Args) == 3 {
-				if v, isC := constBool(cm.Args[2]); isC && v {
-					track = in.(*ssa.Call)
-				}
+			if add, rem := connSetEffect(in, srvT, 2); add && !rem {
+				track = in
 			}
 			if g, ok := in.(*ssa.Go); ok {
 				goI = g
@@ -498,10 +499,10 @@ func c17Structure(c *Ctx, r *Report) {
 	}
 	r.instance("R17.3", 1)
 	if track == nil || goI == nil {
-		rep("R17.3", false, id, "serve does not contain trackConn(c,true) followed by a go statement", "", "no-track-go", c.pos(serve.Pos()))
+		rep("R17.3", false, id, "serve does not register the accepted connection in the server's connection set before a go statement", "", "no-track-go", c.pos(serve.Pos()))
 	} else {
 		okPair := track.Block().Dominates(goI.Block()) && allPathsPass(track.Block(), goI.Block(), nil) || track.Block() == goI.Block()
-		rep("R17.3", okPair, id, "every path from trackConn(c,true) reaches the go statement that owns the connection", "", "track-without-go", c.pos(track.Pos()))
+		rep("R17.3", okPair, id, "every path from the registration of the connection reaches the go statement that owns the connection", "", "track-without-go", c.pos(track.Pos()))
 		var gofn *ssa.Function
 		if mc, ok := goI.Common().Value.(*ssa.MakeClosure); ok {
 			gofn = mc.Fn.(*ssa.Function)
@@ -535,19 +536,18 @@ func c17Structure(c *Ctx, r *Report) {
 				}
 			}
 			rep("R17.3", recFirst, did, "the cleanup starts by recovering a panic of the handler", "", "no-recover", c.pos(dfn.Pos()))
-			var untrack []*ssa.Call
+			var untrack []ssa.Instruction
 			var closeGuards []*ssa.BasicBlock
 			var closeCalls int
 			for _, b := range dfn.Blocks {
 				for _, in := range b.Instrs {
-					if cm, ok := isCallTo(in, "trackConn"); ok && len(cm.Args) == 3 {
-						if v, isC := constBool(cm.Args[2]); isC && !v {
-							untrack = append(untrack, in.(*ssa.Call))
-						}
+					if add, rem := connSetEffect(in, srvT, 2); rem && !add {
+						untrack = append(untrack, in)
 					}
 					if call, ok := in.(*ssa.Call); ok && call.Common().StaticCallee() == nil && !call.Common().IsInvoke() {
 						if ld, ok := call.Common().Value.(*ssa.UnOp); ok {
-							if fa, ok := ld.X.(*ssa.FieldAddr); ok && fieldVarOf(fa) != nil && fieldVarOf(fa).Name() == "OnCloseConnFunc" {
+							// the close callback: the func-typed field of Server called from the cleanup
+							if fa, ok := ld.X.(*ssa.FieldAddr); ok && funcFieldOf(fa, srvT) != nil {
 								closeCalls++
 								if len(b.Preds) == 1 {
 									closeGuards = append(closeGuards, b.Preds[0])
@@ -559,7 +559,7 @@ func c17Structure(c *Ctx, r *Report) {
 			}
 			entry := dfn.Blocks[0]
 			okUn := len(untrack) == 1 && allPathsPass(entry, untrack[0].Block(), nil)
-			rep("R17.3", okUn, did, "trackConn(c,false) is called exactly once on every path through the cleanup", fmt.Sprintf("%d call sites", len(untrack)), "untrack-not-unconditional", c.pos(dfn.Pos()))
+			rep("R17.3", okUn, did, "the connection is removed from the connection set exactly once on every path through the cleanup", fmt.Sprintf("%d call sites", len(untrack)), "untrack-not-unconditional", c.pos(dfn.Pos()))
 			okClose := closeCalls == 1 && len(closeGuards) == 1 && allPathsPass(entry, closeGuards[0], nil)
 			rep("R17.3", okClose, did, "the close callback's guard is evaluated exactly once on every path through the cleanup", fmt.Sprintf("%d call sites", closeCalls), "close-callback-not-unconditional", c.pos(dfn.Pos()))
 		}
@@ -601,7 +601,15 @@ func c17Structure(c *Ctx, r *Report) {
 			continue
 		}
 		fa, ok := ld.X.(*ssa.FieldAddr)
-		if !ok || fieldVarOf(fa) == nil || fieldVarOf(fa).Name() != "OnAcceptConnFunc" {
+		// the accept callback: the func-typed field of Server whose result is an error
+		if !ok {
+			continue
+		}
+		fv := funcFieldOf(fa, srvT)
+		if fv == nil {
+			continue
+		}
+		if res := fv.Type().Underlying().(*types.Signature).Results(); res.Len() != 1 || !isErrorType(res.At(0).Type()) {
 			continue
 		}
 		// true successor must invoke Close on the accepted connection
@@ -936,4 +944,100 @@ func init() {
 			}
 		}
 	}
+}
+
+// funcFieldOf returns the field selected by fa when it is a func-typed field of struct type t.
+func funcFieldOf(fa *ssa.FieldAddr, t types.Type) *types.Var {
+	if !types.Identical(deref(fa.X.Type()), t) {
+		return nil
+	}
+	fv := fieldVarOf(fa)
+	if fv == nil {
+		return nil
+	}
+	if _, ok := fv.Type().Underlying().(*types.Signature); !ok {
+		return nil
+	}
+	return fv
+}
+
+// mapFieldOf: v is a load of a map-typed field of struct type t.
+func mapFieldOf(v ssa.Value, t types.Type) bool {
+	ld, ok := v.(*ssa.UnOp)
+	if !ok {
+		return false
+	}
+	fa, ok := ld.X.(*ssa.FieldAddr)
+	if !ok || !types.Identical(deref(fa.X.Type()), t) {
+		return false
+	}
+	_, isMap := ld.Type().Underlying().(*types.Map)
+	return isMap
+}
+
+// connSetEffect reports whether executing instruction `in` can insert into (add) or delete from
+// (rem) a map-typed field of struct type t: directly, or through a static call of a function of
+// the same package (to the given depth), where code the callee runs only for the other value of a
+// boolean parameter that the call passes as a constant is left out.
+func connSetEffect(in ssa.Instruction, t types.Type, depth int) (add, rem bool) {
+	switch x := in.(type) {
+	case *ssa.MapUpdate:
+		if mapFieldOf(x.Map, t) {
+			return true, false
+		}
+	case ssa.CallInstruction:
+		cm := x.Common()
+		if b, ok := cm.Value.(*ssa.Builtin); ok && b.Name() == "delete" && len(cm.Args) == 2 && mapFieldOf(cm.Args[0], t) {
+			return false, true
+		}
+		if _, isGo := in.(*ssa.Go); isGo {
+			return false, false
+		}
+		callee := cm.StaticCallee()
+		if callee == nil || callee.Blocks == nil || depth == 0 || in.Parent() == nil || callee.Pkg != in.Parent().Pkg && (in.Parent().Parent() == nil || callee.Pkg != in.Parent().Parent().Pkg) {
+			return false, false
+		}
+		// blocks the constant flags rule out
+		dead := map[*ssa.BasicBlock]bool{}
+		for i, p := range callee.Params {
+			if i >= len(cm.Args) {
+				break
+			}
+			v, isC := constBool(cm.Args[i])
+			if !isC || !types.Identical(p.Type().Underlying(), types.Typ[types.Bool]) {
+				continue
+			}
+			for _, b := range callee.Blocks {
+				iff, ok := b.Instrs[len(b.Instrs)-1].(*ssa.If)
+				if !ok || iff.Cond != ssa.Value(p) {
+					continue
+				}
+				skip := b.Succs[0]
+				if v {
+					skip = b.Succs[1]
+				}
+				if len(skip.Preds) != 1 {
+					continue
+				}
+				for _, d := range callee.Blocks {
+					if d == skip || skip.Dominates(d) {
+						dead[d] = true
+					}
+				}
+			}
+		}
+		for _, b := range callee.Blocks {
+			if dead[b] {
+				continue
+			}
+			for _, in2 := range b.Instrs {
+				if _, isDefer := in2.(*ssa.Defer); isDefer {
+					continue
+				}
+				a2, r2 := connSetEffect(in2, t, depth-1)
+				add, rem = add || a2, rem || r2
+			}
+		}
+	}
+	return add, rem
 }
